@@ -58,6 +58,8 @@ struct C18 : Property
 		return {"TSan runtime replaced by sim/simtsan.c: scheduler + vector-clock happens-before detector + quarantine of freed blocks", "allocator front, seed source (arc4random) as in the other checks"};
 	}
 	std::map<std::string, int64_t> cfg_defaults() const override { return {{"pct", 0}, {"p_atomic", 300}, {"p_watched", 300}, {"p_other", 20}}; }
+	// which build of json-c found it (the replay command picks the binary accordingly)
+	void stamp_process_cfg(Plan &p) override { p.cfg["assert_build"] = strstr(g_exe_path, "thrassert") ? 1 : 0; }
 
 	Plan generate(Rng &r, Tier, uint64_t) override
 	{
